@@ -111,6 +111,15 @@ SCHED_HISTORIES = [
 ]
 
 
+SHORT_HISTORIES = [
+    [['push', 'T'], ['pop']],
+    [['push', 'A'], ['exc', 1]],
+    [['read']],
+    [['mkinv']],
+    [['push', 'OP'], ['read'], ['pop']],
+]
+
+
 def plan(tier, seed):
     n = 4 if tier == 'quick' else 5          # full alphabet (5 settings, eager and jitted apply)
     cases, nstates = bfs_cases(n)
@@ -144,6 +153,10 @@ def plan(tier, seed):
     for i, j in itertools.product(range(len(SCHED_HISTORIES)), repeat=2):
         for sp in range(len(SCHED_HISTORIES[i]) + 1):
             pairs.append({'mode': 'child', 'a': i, 'b': j, 'spawn_at': sp})
+    if tier == 'thorough':   # three concurrent threads on very short histories, all interleavings
+        import itertools as _it
+
+        pairs += [{'mode': 'threads3', 'hs': list(t)} for t in _it.combinations_with_replacement(range(len(SHORT_HISTORIES)), 3) if sum(len(SHORT_HISTORIES[i]) for i in t) <= 4]
     phases.append({'name': 'sched_events', 'target': TARGET, 'cases': pairs, 'x64': False, 'chunk': 8})
     # line-level preemption
     bound = 1 if tier == 'quick' else 2
@@ -372,6 +385,15 @@ def run_history(hist):
 
 def _participants(case, problems_by_part):
     W = _setup()
+    if case['mode'] == 'threads3':
+        def mk3(hist, idx):
+            def body(obs, ev, api):
+                pr = []
+                problems_by_part[idx] = pr
+                interpret(hist, pr, obs=obs, ev=ev, api=api, do_apply=False, fast_inv=True)
+                obs.append(('final', W['fp'](W['Config'].instance())))
+            return body
+        return [{'body': mk3(SHORT_HISTORIES[h], i)} for i, h in enumerate(case['hs'])]
     ha, hb = SCHED_HISTORIES[case['a']], SCHED_HISTORIES[case['b']]
 
     def mk(hist, idx, **kw):
